@@ -9,7 +9,7 @@ import wv
 def setup():
     ok, out = wv.run_gen()
     print(out)
-    ok2, out2 = wv.coq_make([f[:-2] + ".vo" for f in wv.coq_files()])
+    ok2, out2 = wv.coq_make([f[:-2] + ".vo" for f in wv.coq_files()], timeout=3000, per_file=1200)
     print(out2[-3000:])
     if not ok2:
         # compiled files left over from another state of the sources (copied sandboxes keep build output): rebuild from scratch once
@@ -18,7 +18,7 @@ def setup():
             for f in glob.glob(os.path.join(wv.COQ, pat)):
                 os.remove(f)
         print("setup: rebuilding the Coq development from scratch")
-        ok2, out2 = wv.coq_make([f[:-2] + ".vo" for f in wv.coq_files()])
+        ok2, out2 = wv.coq_make([f[:-2] + ".vo" for f in wv.coq_files()], timeout=3000, per_file=1200)
         print(out2[-3000:])
     if not ok2:
         # a theorem file that does not build makes ITS check report a violation; setup itself only needs the tool chain
